@@ -15,7 +15,7 @@ from simkit import gen, launch, ref
 from simkit.kernel import EventLog, Forks, RunStats, Violation, digest, f64_bits, sub_rng
 
 SPEC = {
-    "C14": dict(engine="viewsim", level="exploration", runs=dict(quick=2500, thorough=60000), chunk=20,
+    "C14": dict(engine="viewsim", level="exploration", runs=dict(quick=2500, thorough=24000), chunk=20,
                 rule="seeded histories of subset / subset-of-subset / combine / concat / invert / observed / unobserved / "
                      "get_plate / plates / to_screen / unique-filter / cross-screen combine over a pool of <= 12 live views of two "
                      "base screens; after every operation every live view is compared with its reference index set; non-trivial if "
@@ -48,7 +48,7 @@ def gen_plan(prop, run_seed, tier):
             gen.add_space_extra(w, sp)
     n = s.randint(3, 16 if tier == "quick" else 30)
     steps = [dict(op=s.choice(OPS), sub=s.randrange(2**31)) for _ in range(n)]
-    return dict(engine="viewsim", prop=prop, screens=specs, steps=steps)
+    return dict(engine="viewsim", prop=prop, screens=specs, steps=steps, same_instant=(s.randrange(1, 2**31) if s.random() < 0.3 else None))
 
 
 class V:
@@ -71,7 +71,15 @@ def execute(prop, plan):
             viol.append(Violation(prop, oid, sig, msg))
 
     try:
-        bases = [gen.make_screen(sp) for sp in plan["screens"]]
+        if plan.get("same_instant"):
+            # both parent screens come into being at the same clock reading in the same process (a coarse clock, a fast
+            # machine): they are still two different screens
+            import batchie.data  # noqa: F401  (module import is not part of the moment)
+            with launch.SimEnv(plan["same_instant"], frozen_clock=True):
+                bases = [gen.make_screen(sp) for sp in plan["screens"]]
+            stats.probe("parents_built_at_the_same_instant")
+        else:
+            bases = [gen.make_screen(sp) for sp in plan["screens"]]
     except Exception as e:
         log.ev("not-constructible", type(e).__name__)
         return dict(digest=log.digest(), violations=viol, stats=stats.to_dict(), log_head=log.head)
